@@ -15,8 +15,11 @@ type C17Case struct {
 	UserEnvHost bool     `json:"userEnvHost,omitempty"` // Cmd.Env = a copy of the host's own environment (the `append(os.Environ(), ...)` idiom)
 	Ambient     []string `json:"ambient"`               // variables present in the host's own environment
 	AmbientName string   `json:"ambientName"`
-	E2E         bool     `json:"e2e"` // launch a real serving plugin and use it
-	E2EProto    string   `json:"e2eProto"`
+	// TwoClients (runner launch with TempDir): two clients are created from this one ClientConfig (one
+	// UnixSocketConfig) and alive at the same time; each has a socket directory of its own
+	TwoClients bool   `json:"twoClients,omitempty"`
+	E2E        bool   `json:"e2e"` // launch a real serving plugin and use it
+	E2EProto   string `json:"e2eProto"`
 }
 
 type C17Obs struct {
@@ -27,6 +30,14 @@ type C17Obs struct {
 	Gid        string   `json:"gid"`
 	TempDir    string   `json:"tempDir"`
 	Captured   bool     `json:"captured"`
+	// two clients from one config: the directory each runner was handed, PLUGIN_UNIX_SOCKET_DIR in each
+	// command's environment, and which directories exist at each stage ("AB" = both)
+	TwoTmp      []string `json:"twoTmp,omitempty"`
+	TwoEnvDir   []string `json:"twoEnvDir,omitempty"`
+	TwoStartErr []string `json:"twoStartErr,omitempty"`
+	ExistBoth   string   `json:"existBoth,omitempty"`   // after both started
+	ExistAfterA string   `json:"existAfterA,omitempty"` // after A was killed (B alive)
+	ExistAfterB string   `json:"existAfterB,omitempty"` // after both were killed
 	// e2e
 	ClientErr string `json:"clientErr"`
 	PingErr   string `json:"pingErr"`
